@@ -540,6 +540,99 @@ Fixpoint run_from (i : N) (s : state) (ops : list op) : state :=
   end.
 Definition run_ops (ops : list op) : state := run_from 0 init_state ops.
 
+(* ------------------------------------------------------------------ ZoneTree (tree.rs): the set of zones of one class *)
+(* names here are absolute: the root label first (the order of
+   `iter_labels().rev()`), zones are identified by a number *)
+Inductive znode := ZNode (zone : option N) (children : list (label * znode)).
+Definition zn_zone (n : znode) := let 'ZNode z _ := n in z.
+Definition zn_children (n : znode) := let 'ZNode _ c := n in c.
+Definition zempty := ZNode None [].
+Definition E_ZoneExists : N := 11.
+Definition E_ZoneDoesNotExist : N := 12.
+
+Fixpoint zfind_child (l : label) (cs : list (label * znode)) : option znode :=
+  match cs with [] => None | (k, c) :: cs' => if k =? l then Some c else zfind_child l cs' end.
+Fixpoint zset_child (l : label) (c : znode) (cs : list (label * znode)) : list (label * znode) :=
+  match cs with
+  | [] => [(l, c)]
+  | (k, x) :: cs' => if k =? l then (k, c) :: cs' else (k, x) :: zset_child l c cs'
+  end.
+Definition zdel_child (l : label) (cs : list (label * znode)) : list (label * znode) :=
+  filter (fun kc => negb (fst kc =? l)) cs.
+
+(* ZoneSetNode::get_zone *)
+Fixpoint zt_get (n : znode) (p : name) : option N :=
+  match p with
+  | [] => zn_zone n
+  | l :: p' => match zfind_child l (zn_children n) with Some c => zt_get c p' | None => None end
+  end.
+
+(* ZoneSetNode::find_zone: the zone of the deepest node on the path that has one *)
+Fixpoint zt_find (n : znode) (q : name) : option N :=
+  match q with
+  | [] => zn_zone n
+  | l :: q' =>
+      match zfind_child l (zn_children n) with
+      | Some c => match zt_find c q' with Some z => Some z | None => zn_zone n end
+      | None => zn_zone n
+      end
+  end.
+
+(* ZoneSetNode::insert_zone *)
+Fixpoint zt_insert (p : name) (z : N) (n : znode) : outcome znode :=
+  match p with
+  | [] => match zn_zone n with Some _ => Err E_ZoneExists | None => Ok (ZNode (Some z) (zn_children n)) end
+  | l :: p' =>
+      let c := match zfind_child l (zn_children n) with Some c => c | None => zempty end in
+      match zt_insert p' z c with
+      | Ok c' => Ok (ZNode (zn_zone n) (zset_child l c' (zn_children n)))
+      | Err e => Err e | Panic x => Panic x | OutOfFuel => OutOfFuel
+      end
+  end.
+
+(* ZoneSetNode::remove_zone.  [recursive = false] is the code that removes the
+   child of the first label (and with it every zone below that label) and never
+   fails at the last node; [recursive = true] descends to the node of the apex
+   name.  Which one the source has is read by T1 ([zremove_recursive]). *)
+Fixpoint zt_remove_gen (recursive : bool) (p : name) (n : znode) : outcome znode :=
+  match p with
+  | [] => if recursive then
+            match zn_zone n with Some _ => Ok (ZNode None (zn_children n)) | None => Err E_ZoneDoesNotExist end
+          else Ok (ZNode None (zn_children n))
+  | l :: p' =>
+      match zfind_child l (zn_children n) with
+      | None => Err E_ZoneDoesNotExist
+      | Some c =>
+          if recursive then
+            match zt_remove_gen recursive p' c with
+            | Ok c' => Ok (ZNode (zn_zone n) (zset_child l c' (zn_children n)))
+            | Err e => Err e | Panic x => Panic x | OutOfFuel => OutOfFuel
+            end
+          else Ok (ZNode (zn_zone n) (zdel_child l (zn_children n)))
+      end
+  end.
+Definition zt_remove := zt_remove_gen zremove_recursive.
+
+(* iter_zones *)
+Fixpoint zt_list (n : znode) : list N :=
+  let 'ZNode z cs := n in
+  (match z with Some x => [x] | None => [] end) ++
+  (fix go (cs : list (label * znode)) : list N := match cs with [] => [] | (_, c) :: cs' => zt_list c ++ go cs' end) cs.
+
+Inductive zop := ZIns (p : name) (z : N) | ZRem (p : name).
+Fixpoint zt_run (i : N) (ops : list zop) (acc : znode * list (N * N)) : znode * list (N * N) :=
+  match ops with
+  | [] => acc
+  | o :: ops' =>
+      let '(t, errs) := acc in
+      let r := match o with ZIns p z => zt_insert p z t | ZRem p => zt_remove p t end in
+      zt_run (i + 1) ops' (match r with Ok t' => (t', errs) | Err e => (t, errs ++ [(i, e)]) | _ => (t, errs) end)
+  end.
+Definition c08_tree_run (ops : list zop) : znode * list (N * N) := zt_run 0 ops (zempty, []).
+Definition c08_tree_find := zt_find.
+Definition c08_tree_get := zt_get.
+Definition c08_tree_list := zt_list.
+
 (* what the driver calls *)
 Definition c08_run (ops : list op) : node * list (N * N) := let s := run_ops ops in (s_comm s, s_errs s).
 Definition c08_query (z : node) (q : name) (qt : rtype) : answer := query z q qt.
